@@ -121,7 +121,11 @@ func Interval(interval time.Duration) Observable[int64] {
 // Play: https://go.dev/play/p/Xhi6c336ldy
 func IntervalWithInitial(initial, interval time.Duration) Observable[int64] {
 	return NewObservableWithContext(func(ctx context.Context, destination Observer[int64]) Teardown {
-		ticker := time.NewTicker(initial * 2)
+		// The ticker stays silent until it is armed by ticker.Reset(interval) below: a ticker of
+		// period initial*2 panics for initial == 0 (time.NewTicker rejects a non-positive duration)
+		// and, for interval > initial, races the initial timer (a tick of that first schedule may be
+		// taken before the timer, or stay buffered across Reset, and value 1 follows value 0 at once).
+		ticker := time.NewTicker(math.MaxInt64)
 		timer := time.NewTimer(initial)
 		done := make(chan struct{}, 1)
 
